@@ -121,6 +121,9 @@ impl ValIter {
 pub struct DisplayCow { _p: u8 }
 /// the object behind a value identity has the key
 pub uninterp spec fn obj_has_key(o: VId, k: Seq<char>) -> bool;
+/// the members of the object behind a value identity (None: not an object) / of an object view
+pub uninterp spec fn vid_members(v: VId) -> Option<Map<Seq<char>, VId>>;
+pub uninterp spec fn obj_members(o: &dyn ObjectView) -> Map<Seq<char>, VId>;
 pub trait ValueView {
     spec fn vid_of(&self) -> VId;
     spec fn scalar_of(&self) -> Option<ScalarCow>;
@@ -145,7 +148,9 @@ pub trait ValueView {
     fn as_object(&self) -> (r: Option<&dyn ObjectView>)
         ensures self.object_size_of() is Some <==> r is Some,
                 r matches Some(o) ==> self.object_size_of() == Some(o.entries()),
-                r matches Some(o) ==> forall|k: Seq<char>| #[trigger] o.has_key(k) == obj_has_key(self.vid_of(), k);
+                r matches Some(o) ==> forall|k: Seq<char>| #[trigger] o.has_key(k) == obj_has_key(self.vid_of(), k),
+                r matches Some(o) ==> vid_members(self.vid_of()) == Some(obj_members(o)),
+                r is None ==> vid_members(self.vid_of()) is None;
 }
 pub trait ObjectView {
     spec fn entries(&self) -> int;
@@ -158,23 +163,32 @@ pub trait ArrayView {
     fn size(&self) -> (r: i64) ensures r == self.elems().len();
     fn values(&self) -> (r: ValIter) ensures r.rest() == self.elems();
 }
-/// `ArrayView::first/last` (an extension trait here: Verus forbids the ValueView <-> ArrayView cycle in trait contracts);
-/// proved for the trait's default bodies (first = get(0), last = get(-1)) in unit `index`
-pub trait ArrayEnds {
+/// `ArrayView::{first, last, get}` (an extension trait here: Verus forbids the ValueView <-> ArrayView cycle in trait
+/// contracts); these contracts are proved for the real `Vec<T>: ArrayView::get` and the trait's default bodies
+/// (first = get(0), last = get(-1)) in unit `index`
+pub open spec fn seq_idx(a: Seq<VId>, i: int) -> Option<VId> {
+    if 0 <= i < a.len() { Some(a[i]) } else if -a.len() <= i < 0 { Some(a[a.len() + i]) } else { None }
+}
+pub trait ArrayEnds<'a> {
     spec fn elems_of(&self) -> Seq<VId>;
-    fn first(&self) -> (r: Option<&dyn ValueView>)
+    fn first(&self) -> (r: Option<&'a dyn ValueView>)
         ensures self.elems_of().len() == 0 ==> r is None,
                 self.elems_of().len() > 0 ==> (r matches Some(v) && v.vid_of() == self.elems_of()[0]);
-    fn last(&self) -> (r: Option<&dyn ValueView>)
+    fn last(&self) -> (r: Option<&'a dyn ValueView>)
         ensures self.elems_of().len() == 0 ==> r is None,
                 self.elems_of().len() > 0 ==> (r matches Some(v) && v.vid_of() == self.elems_of()[self.elems_of().len() - 1]);
+    fn get(&self, index: i64) -> (r: Option<&'a dyn ValueView>)
+        ensures seq_idx(self.elems_of(), index as int) is None ==> r is None,
+                seq_idx(self.elems_of(), index as int) matches Some(e) ==> (r matches Some(v) && v.vid_of() == e);
 }
-impl ArrayEnds for &dyn ArrayView {
+impl<'a> ArrayEnds<'a> for &'a dyn ArrayView {
     open spec fn elems_of(&self) -> Seq<VId> { self.elems() }
     #[verifier::external_body]
-    fn first(&self) -> (r: Option<&dyn ValueView>) { unimplemented!() }
+    fn first(&self) -> (r: Option<&'a dyn ValueView>) { unimplemented!() }
     #[verifier::external_body]
-    fn last(&self) -> (r: Option<&dyn ValueView>) { unimplemented!() }
+    fn last(&self) -> (r: Option<&'a dyn ValueView>) { unimplemented!() }
+    #[verifier::external_body]
+    fn get(&self, index: i64) -> (r: Option<&'a dyn ValueView>) { unimplemented!() }
 }
 /// `Value` itself is a view (identity preserved)
 impl ValueView for Value {
